@@ -187,6 +187,21 @@ structure NameOpts where
   out : OutMode := .single
   rand : Bool := false
   check : Bool := false
+  /-- `--license` naming anything but CC0: refused before any input is read -/
+  lic : Bool := false
+  /-- the output file of the FIRST listed input exists before the command runs -/
+  pre : Bool := false
+  /-- `--force` -/
+  force : Bool := false
+
+/-- the inputs `_compute_individual` still sketches (`+pre`: the first listed one already has its output) -/
+def remaining (mode : NameMode) (opts : NameOpts) (files : List SeqFile) : List SeqFile :=
+  match files with
+  | [] => []
+  | f0 :: _ =>
+    -- a missing output directory cannot hold an output yet
+    let pre := opts.pre && (match opts.out with | .dir false => false | _ => true)
+    skipExisting mode opts.out opts.force (fun f => pre && f.name = f0.name) files
 
 def nameOpts (flags : List String) : Option NameOpts :=
   flags.foldlM (fun (o : NameOpts) f =>
@@ -195,12 +210,17 @@ def nameOpts (flags : List String) : Option NameOpts :=
     else if f = "cwd" then some { o with out := .cwd }
     else if f = "rand" then some { o with rand := true }
     else if f = "check" then some { o with check := true }
+    else if f = "lic" then some { o with lic := true }
+    else if f = "pre" then some { o with pre := true }
+    else if f = "force" then some { o with force := true }
     else if f = "fromfile" then some o            -- `--from-file LIST`: the same inputs, named in a file
     else none) {}
 
 def namesLine (mode : NameMode) (opts : NameOpts) (k : Nat) (files : List SeqFile) : String :=
   let p : CP := { ksizes := [k], seed := 42, protein := false, dayhoff := false, hp := false, dna := true,
                   num := 0, track := false, scaled := 1 }
+  if opts.lic then "err SystemExit" else
+  let files := remaining mode opts files
   match planOutputs mode opts.out files with
   | .error .exit => "err SystemExit"
   | .error .noDir =>
@@ -253,6 +273,8 @@ deprecated `compute`: every sketch of every signature written, with the file it 
     of a signature in order and the first error ends the command -/
 def cliLine (mode : NameMode) (opts : NameOpts) (sigs : List (List BT)) (isProt : Bool) (files : List SeqFile)
     (mergedErr : String) : String :=
+  if opts.lic then "err SystemExit" else
+  let files := remaining mode opts files
   match planOutputs mode opts.out files with
   | .error .exit => "err SystemExit"
   | .error .noDir =>
@@ -392,7 +414,8 @@ def step (st : Unit) (line : String) : Unit × String :=
         | .error e =>
           -- a ValueError while creating the factory is reported and the command exits; anything else escapes
           (st, if e.cls = .value then "err SystemExit" else "err " ++ e.cls.name)
-        | .ok sigs => (st, cliLine nm opts sigs (sub = "protein") files "err ValueError")
+        -- `aa` / `prot` are `sketch protein`, `rna` / `nucleotide` / `nt` are `sketch dna` (declared aliases)
+        | .ok sigs => (st, cliLine nm opts sigs (sub = "protein" || sub = "aa" || sub = "prot") files "err ValueError")
       | _, _ => bad
     | _, _, _, _ => bad
   | "cmp" :: ks :: dna :: pr :: dy :: hp :: num :: sc :: tr :: seed :: inprot :: mode :: rest =>
@@ -417,12 +440,15 @@ def step (st : Unit) (line : String) : Unit × String :=
             inputIsProtein := inprot
             hasOutput := hasO
             hasOutputDir := hasD
-            merge := isM }
+            merge := isM
+            licenseCC0 := !opts.lic }
         match computeParams a with
         | .error _ => (st, "err SystemExit")
         | .ok c => (st, cliLine nm opts [buildTemplate c] inprot files "err ValueError")
       | _, _ => bad
     | _, _, _, _, _, _ => bad
+  -- implementation-only op (SourmashSignature.__eq__ on tree-backed / array-backed signatures): the oracle decides
+  | "sigeq" :: _ => (st, "skip")
   | ["setname", fname, name] =>
     match decode fname, (if name = "none" then some none else (decode name).map some) with
     | some fname, some name => (st, s!"ok {hexOfChars (name.getD [])}|{hexOfChars (recordedFilename fname)}")
